@@ -1,5 +1,5 @@
 import Gzx.Driver.QRTables
-import Gzx.Model.QRRS
+import Gzx.Model.RS
 namespace Gzx.Driver.C01
 open Gzx Gzx.QRDec Gzx.ECI
 
@@ -45,7 +45,9 @@ def matrixOfBits (dim : Nat) (s : String) : Option Matrix :=
 
 def T : Tables := QRTables.tables
 
-def rs : List Nat → Nat → Res (List Nat) := QRRS.decode
+/-- Reed-Solomon block decoding: the C04 model of `ReedSolomonDecoder.Decode` over GF(256)/0x11D, base 0 —
+    the decoder the theorems of C01/C05 are about (`QRComp.rsQR`; `Obligations.C01.driver_rs_is_rsQR`) -/
+def rs : List Nat → Nat → Res (List Nat) := Gzx.RS.decode Gzx.GF.qrCode256
 
 def handle : List String → String
   | ["bs", hex, ns] =>
